@@ -3,7 +3,8 @@
    The model (Model/Pools.v) is parametric in the repair sites ([variant]); [tree_variant] (Gen/C10Cfg.v) is
    what the tree implements NOW, read from the source on every run and used by the correspondence run.
    [run v c ops s] executes a history; a failing step leaves the state unchanged (cache discarded).
-   tree_r0 = the tree before 86992ce/c0fbb8a, tree_r1 = with them, tree_r2 = + the three pending repairs. *)
+   tree_r0 = the tree before 86992ce/c0fbb8a, tree_r1 = with them, tree_r2 = + cd97a9e/33b3789/ca2cd55,
+   tree_r3 = + 27b0386 (the tree now). *)
 From Sekai Require Import Base.Prelude Base.Dec Model.Pools Gen.C10Cfg Model.C10Check Proofs.Pools Proofs.PoolsTree
   Proofs.PoolsRewards Proofs.PoolsChk.
 
@@ -23,29 +24,38 @@ Theorem C10_registry_supply_refuted :
 Proof. exact registry_supply_refuted. Qed.
 Print Assumptions C10_registry_supply_refuted.
 
-(* ================= pro-rata redemption.  FULL STRENGTH for the pro-rata conversion (redeem rule 1, pending patch):
-   in ANY state (any number of slashes) a successful undelegation of stake x burns b shares with
-   x*shares <= stake*b < x*shares + stake *)
+(* ================= pro-rata redemption.  FULL STRENGTH FOR THE TREE AS IT IS (ca2cd55, GetRedeemPoolCoins): in ANY state --
+   after any number of slashes, by governance (27b0386: the slash-proposal path is the keeper's slash) or not -- a
+   successful undelegation of stake x burns b shares with  x*shares <= stake*b < x*shares + stake *)
 Theorem C10_redeem_pro_rata :
-  forall v c who amts s s', v_redeem_rule v = 1 -> (forall d, 0 <= shares s d) ->
-  undelegate v c who amts s = Ok s' ->
-  exists pc, redeem_coins v s amts = Ok pc /\ fair s amts pc /\
+  forall c who amts s s', (forall d, 0 <= shares s d) -> undelegate tree_variant c who amts s = Ok s' ->
+  exists pc, redeem_coins tree_variant s amts = Ok pc /\ fair s amts pc /\
              (forall d, sbal s' who d = sbal s who d - csum pc d) /\ (forall d, stake s' d = stake s d - csum amts d).
-Proof. exact redeem_pro_rata. Qed.
+Proof. exact tree_redeem_pro_rata. Qed.
 Print Assumptions C10_redeem_pro_rata.
-(* REFUTED as the tree is (GetPoolCoins multiplies by 1-slashed): two equal delegators of 100, slash 1/2, the first
+Theorem C10_governance_slash_is_slash :
+  forall c sl s, step tree_variant c (OSlashProposal sl) s = slash tree_variant c sl s.
+Proof. exact tree_governance_slash. Qed.
+Print Assumptions C10_governance_slash_is_slash.
+(* REFUTED before ca2cd55 (GetPoolCoins multiplied by 1-slashed): two equal delegators of 100, slash 1/2, the first
    redeems all 100 remaining stake for 50 shares *)
-Theorem C10_redeem_pro_rata_refuted :
+Theorem C10_redeem_pro_rata_refuted_before_repair :
   exists c who amts s s', (forall d, ssup s d = shares s d) /\ undelegate tree_r1 c who amts s = Ok s' /\ ~ pro_rata_at s amts /\
     stake s' 0 = 0 /\ sbal s' 0 0 = 50 /\ sbal s' 1 0 = 100.
 Proof. exact redeem_pro_rata_refuted. Qed.
-Print Assumptions C10_redeem_pro_rata_refuted.
-(* what holds for every variant: a never-slashed pool is 1:1 in every reachable state, and redemption from it is fair *)
-Theorem C10_unslashed_one_to_one :
-  forall v c ops s, (slashed s = 0 -> forall d, stake s d = shares s d) ->
+Print Assumptions C10_redeem_pro_rata_refuted_before_repair.
+(* old-variant statements: without the empty-burn guard a never-slashed pool is 1:1 in every reachable state, and
+   redemption from it was fair; with the guard a later slash by exactly 0 resets Slashed on a diluted pool *)
+Theorem C10_unslashed_one_to_one_before_guard :
+  forall v c ops s, v_slash_guard v = false -> (slashed s = 0 -> forall d, stake s d = shares s d) ->
   slashed (run v c ops s) = 0 -> forall d, stake (run v c ops s) d = shares (run v c ops s) d.
 Proof. exact unslashed_one_to_one. Qed.
-Print Assumptions C10_unslashed_one_to_one.
+Print Assumptions C10_unslashed_one_to_one_before_guard.
+Theorem C10_unslashed_one_to_one_refuted_with_guard :
+  let s := run tree_r3 demo_cfg [ODelegate 0 [(0, 100)]; ODelegate 1 [(0, 100)]; OSlash HALF; OSlash 0] demo_init in
+  slashed s = 0 /\ stake s 0 = 100 /\ shares s 0 = 200.
+Proof. exact unslashed_one_to_one_refuted_with_guard. Qed.
+Print Assumptions C10_unslashed_one_to_one_refuted_with_guard.
 Theorem C10_redeem_pro_rata_partial :
   forall amts s, inv_unslashed s -> slashed s = 0 -> (forall d, 0 <= shares s d) -> pro_rata_at s amts.
 Proof. exact redeem_pro_rata_unslashed. Qed.
@@ -128,38 +138,38 @@ Theorem C10_signing_proposer_credited_refuted_before_repair :
 Proof. exact signing_proposer_credited_refuted. Qed.
 Print Assumptions C10_signing_proposer_credited_refuted_before_repair.
 
-(* "by its signing record": FULL STRENGTH with signers-only votes (pending patch): a vote at the new height exists
-   only for validators with SignedLastBlock ... *)
+(* "by its signing record": FULL STRENGTH FOR THE TREE AS IT IS (33b3789): a vote at the new height exists only for
+   validators with SignedLastBlock ... *)
 Theorem C10_votes_only_for_signers :
-  forall v c dt commit p possible infl s s1 q, v_signers_only v = true ->
-  begin_block v c dt commit p possible infl s = Ok s1 ->
+  forall c dt commit p possible infl s s1 q,
+  begin_block tree_variant c dt commit p possible infl s = Ok s1 ->
   In (q, height s1) (votes s1) -> (forall w, In w (votes s) -> snd w <= height s) -> In (q, true) commit.
-Proof. exact votes_only_for_signers. Qed.
+Proof. exact tree_votes_only_for_signers. Qed.
 Print Assumptions C10_votes_only_for_signers.
-(* ... REFUTED as the tree is: validator 0 proposes five blocks without signing any, gets 4 votes and is paid *)
-Theorem C10_signing_record_refuted :
+(* ... REFUTED before the repair: validator 0 proposes five blocks without signing any, gets 4 votes and is paid *)
+Theorem C10_signing_record_refuted_before_repair :
   let s := run tree_r1 demo_cfg (five_blocks false) demo_init in
   count_votes 0 (votes s) = 4 /\ 0 < nbal s 100 0 /\ 0 < rew s 0 0.
 Proof. exact signing_record_refuted. Qed.
-Print Assumptions C10_signing_record_refuted.
+Print Assumptions C10_signing_record_refuted_before_repair.
 
-(* rewards reach the pool's delegators: FULL STRENGTH with the "v<id>/" prefix (pending patch): redeeming part of
-   one's stake keeps one a delegator; nobody else is ever dropped by an undelegation ... *)
+(* rewards reach the pool's delegators: FULL STRENGTH FOR THE TREE AS IT IS (cd97a9e): redeeming part of one's stake
+   keeps one a delegator; nobody else is ever dropped by an undelegation ... *)
 Theorem C10_partial_undelegate_keeps_delegator :
-  forall v c who amts s s', v_prefix_ok v = true -> undelegate v c who amts s = Ok s' ->
+  forall c who amts s s', undelegate tree_variant c who amts s = Ok s' ->
   In who (dels s) -> (exists d, In d (c_dens c) /\ 0 < sbal s' who d) -> In who (dels s').
-Proof. exact partial_undelegate_keeps_delegator. Qed.
+Proof. exact tree_partial_undelegate_keeps_delegator. Qed.
 Print Assumptions C10_partial_undelegate_keeps_delegator.
 Theorem C10_others_stay_delegators :
   forall v c who amts s s' a, undelegate v c who amts s = Ok s' -> a <> who -> In a (dels s) -> In a (dels s').
 Proof. exact others_stay_delegators. Qed.
 Print Assumptions C10_others_stay_delegators.
-(* ... REFUTED as the tree is: after redeeming 300 of 1000 the holder of 700 shares is credited nothing *)
-Theorem C10_delegator_dropped_refuted :
+(* ... REFUTED before the repair: after redeeming 300 of 1000 the holder of 700 shares is credited nothing *)
+Theorem C10_delegator_dropped_refuted_before_repair :
   let s := run tree_r1 demo_cfg partial_redeem demo_init in
   sbal s 0 0 = 700 /\ dels s = [1] /\ rew s 0 0 = 0 /\ 0 < rew s 1 0.
 Proof. exact delegator_dropped_refuted. Qed.
-Print Assumptions C10_delegator_dropped_refuted.
+Print Assumptions C10_delegator_dropped_refuted_before_repair.
 
 (* credited total never exceeds the allocation: REFUTED by per-denom banker's rounding when the stake caps sum
    to 1: 6 units distributable, validator 3 + delegator 2 + 2 *)
@@ -219,3 +229,10 @@ Example C10_nonvacuous_credited :
   (let s := run tree_r2 demo_cfg partial_redeem demo_init in
    sbal s 0 0 = 700 /\ dels s = [0; 1] /\ 0 < rew s 0 0 /\ rew s 0 0 < rew s 1 0).
 Proof. exact (conj signing_proposer_credited_nonvacuous (conj signing_record_repaired delegator_kept_when_repaired)). Qed.
+Example C10_nonvacuous_governance_slash :
+  (let s := run tree_r2 demo_cfg [ODelegate 0 [(0, 100)]; ODelegate 1 [(0, 100)]; OSlashProposal HALF] demo_init in
+   slashed s = 0 /\ stake s 0 = 200) /\
+  (let s := run tree_r3 demo_cfg [ODelegate 0 [(0, 100)]; ODelegate 1 [(0, 100)]; OSlashProposal HALF] demo_init in
+   slashed s = HALF /\ stake s 0 = 100 /\ shares s 0 = 200 /\ redeem_coins tree_r3 s [(0, 50)] = Ok [(0, 100)] /\
+   is_ok (undelegate tree_r3 demo_cfg 0 [(0, 100)] s) = false /\ is_ok (undelegate tree_r3 demo_cfg 0 [(0, 50)] s) = true).
+Proof. exact governance_slash_then_pro_rata. Qed.
